@@ -4,6 +4,7 @@ import (
 	"io"
 	"log"
 	"os"
+	"strconv"
 	"testing"
 	"time"
 )
@@ -15,6 +16,10 @@ func TestMain(m *testing.M) {
 		os.Exit(0)
 	case "c13":
 		childMainC13()
+		os.Exit(0)
+	case "sleep":
+		ms, _ := strconv.Atoi(os.Getenv("VERIF_SLEEP_MS"))
+		time.Sleep(time.Duration(ms) * time.Millisecond)
 		os.Exit(0)
 	}
 	// everything whispertool prints or parses is defined in UTC; run with a local zone that is far from
